@@ -321,6 +321,12 @@ func c14Run(t *testing.T, sc Scenario, res *Result) {
 			res.violate(sc, "c14/flaky", "deterministic concurrent property reported as flaky: "+clip(rp.Raw, 300), nil)
 		}
 	} else {
+		if mix(sc.Seed, 0x106)%6 == 0 {
+			// -rapid.log: every T gets its own stdout logger; Log/Logf/Error/Errorf from goroutines go through it
+			setFlags(map[string]string{"rapid.log": "true"})
+			defer setFlags(nil)
+			res.inc("rapid_log_scenarios")
+		}
 		for s := 0; s < 12; s++ {
 			done := make(chan struct{})
 			var o rapid.VerifOutcome
